@@ -197,6 +197,40 @@ def plane_normal(ctx):
             unit = pos and all(sp.expand(coef * G[i] - w[i]) == 0 for i in range(3)) if coef.is_number else False    # the vector that was normalised is coef·G itself
         ctx.ob('PLANE-NORMAL', loc, '%s: the result is the unit vector along +(h·b×c + k·c×a + l·a×b), the reciprocal-lattice vector of the plane (both in-plane lattice vectors obey the zone law, are integer, and the sense is +g)' % tag,
                bool(par and same and pos and unit), 'parallel %s, one common factor %s, positive %s, normalised by its own length %s; factor %s' % (par, same, pos, unit, r0), node=outer, key=tag)
+    # the same cell in other length units (micrometres ... metres): the normal is a direction, it does not depend on the unit of length.  Concrete numbers, so that any
+    # closeness test in the function is evaluated with numpy's semantics |a - b| <= atol + rtol·|b| (an absolute tolerance on a cross product, a length squared, would show)
+    R = sp.Rational
+    base = np.array([[R(7, 2), 0, 0], [R(-3, 10), R(18, 5), 0], [R(1, 5), R(-1, 10), R(41, 10)]], dtype=object)
+    hkls = [[-2, 1, -2], [1, 0, 0], [0, 1, 1], [3, -1, 2]]
+
+    def at_scale(sc, hkl):
+        Vs = base * sc
+
+        class Bs(PyStub):
+            vects = property(lambda self: Vs.copy())
+
+            def ishexagonal(self, *a, **k):
+                return False
+        ev = SymEval(module_aliases(ctx.mod(MIL)))
+        ev.np_override = {'numpy.lcm': lambda a, b: sp.Integer(math.lcm(int(a), int(b))), 'numpy.lcm.reduce': lambda a: sp.Integer(math.lcm(*[int(x) for x in a]))}
+        try:
+            live = [q for q in ev.run_fn(outer, [arr(hkl), Bs()], {}) if q.done == 'return']
+        except WouldRaise as e:
+            return 'raises: %s' % e
+        except Opaque as e:
+            raise AnalysisError('plane_crystal_to_cartesian on a concrete cell at scale %s: %s' % (sc, e))
+        return np.asarray(live[0].ret, dtype=object) if len(live) == 1 else None
+    for hkl in hkls:
+        ref = at_scale(sp.Integer(1), hkl)
+        bad = []
+        for sc in (R(1, 10 ** 4), R(1, 10 ** 10), sp.Integer(10 ** 6)):
+            got = at_scale(sc, hkl)
+            if ref is None or got is None or isinstance(got, str) or isinstance(ref, str) or np.shape(got) != (3,) or not all(is_zero(sp.nsimplify(a_) - sp.nsimplify(b_)) for a_, b_ in zip(got, ref)):
+                bad.append('lengths x %s: %s' % (sc, got if isinstance(got, str) else [str(sp.N(x, 6)) for x in (got if got is not None else [])]))
+        n += 1
+        ctx.ob('PLANE-NORMAL', loc, '(%s) in a triclinic cell: the same unit normal whatever the unit of length (cell scaled by 1e-4, 1e-10, 1e+6)' % ' '.join(map(str, hkl)), not bad,
+               '; '.join(bad)[:300] + ' [at scale 1: %s]' % ([str(sp.N(x, 6)) for x in ref] if ref is not None and not isinstance(ref, str) else ref), node=outer, key='scale %s' % (hkl,))
+
     ctx.floor('PLANE-NORMAL', n, 26)
     # batches, Miller-Bravais input, refusals
     got, why = run(arr([[2, 3, 5], [0, -3, 0]]))
